@@ -86,6 +86,35 @@ def run_replays(scenarios, timeout=600):
         shutil.rmtree(d, ignore_errors=True)
 
 
+def second_opinion(dumpdir, limit=60, timeout=20):
+    """re-decide a sample of the dumped queries with the z3 4.8.12 and cvc5 binaries"""
+    import glob
+    files = sorted(glob.glob(os.path.join(dumpdir, "q-*.smt2")))
+    step = max(1, len(files) // limit)
+    files = files[::step][:limit]
+    solvers = {"z3-4.8.12": ["/usr/bin/z3", "-T:%d" % timeout], "cvc5": ["cvc5", "--tlimit=%d" % (timeout * 1000)]}
+    out = {"queries": len(files), "solvers": {}, "disagreements": []}
+    for name, cmd in solvers.items():
+        agree = inconclusive = 0
+        for f in files:
+            expected = f.rsplit("-", 1)[1].split(".")[0]
+            try:
+                p = subprocess.run(cmd + [f], capture_output=True, text=True, timeout=timeout + 10)
+                txt = (p.stdout or "") + (p.stderr or "")
+            except Exception as e:
+                txt = "(error %s)" % e
+            lines = [l.strip() for l in txt.splitlines() if l.strip()]
+            ans = lines[0] if lines else ""
+            if "(error" in txt or ans not in ("sat", "unsat"):
+                inconclusive += 1
+            elif ans == expected:
+                agree += 1
+            else:
+                out["disagreements"].append({"solver": name, "file": os.path.basename(f), "expected": expected, "got": ans})
+        out["solvers"][name] = {"agree": agree, "inconclusive": inconclusive}
+    return out
+
+
 def scenario_of(prop, modname, params, item, label=None, detail=None):
     return {"property": prop, "module": modname, "params": params,
             "inputs": dict((n, v) for (_k, n, v) in item["inputs"]),
@@ -136,6 +165,7 @@ def main(argv=None):
     samples = []
     engine_errors = []
     n_known_paths = 0
+    dumpdir = tempfile.mkdtemp(prefix="symx-smt2-") if (tier == "thorough" or os.environ.get("SYMX_SECOND_OPINION")) else None
     for li, lv in enumerate(levels):
         remaining = total_budget - (time.time() - t_start)
         share = remaining / max(1, (len(levels) - li)) if tier == "quick" else remaining
@@ -145,7 +175,7 @@ def main(argv=None):
             print("[%s] level %s skipped: budget exhausted" % (prop, lv["name"]))
             continue
         r = explore.explore(modname, lv, budget, nproc=args.nproc, seed=seed,
-                            sample_every=lv.get("sample_every", 10 if tier == "quick" else 25))
+                            sample_every=lv.get("sample_every", 10 if tier == "quick" else 25), dumpdir=dumpdir)
         total.add(r.stats)
         all_labels |= r.labels
         functions |= r.functions
@@ -210,6 +240,10 @@ def main(argv=None):
                                "detail": res.get("detail"), "inputs": s["inputs"],
                                "sym": s["observations"], "real": res.get("observations")})
 
+    second = second_opinion(dumpdir) if dumpdir else None
+    if dumpdir:
+        shutil.rmtree(dumpdir, ignore_errors=True)
+
     # ---- verdict -----------------------------------------------------------------------
     known_hit = []
     new_viol = []
@@ -244,6 +278,10 @@ def main(argv=None):
         print("[%s] validation mismatch symbolic vs pristine: %s" % (prop, json.dumps(m)[:1500]))
     if missing:
         print("[%s] vacuity guard: labels never reached: %s" % (prop, missing))
+    if second:
+        print("[%s] second opinions on %d dumped queries: %s" % (prop, second["queries"], json.dumps(second["solvers"])))
+        for dsg in second["disagreements"][:3]:
+            print("[%s] SOLVER DISAGREEMENT %s" % (prop, dsg))
     if total.unknown:
         print("[%s] INCONCLUSIVE solver answers: %d (reported, never counted as success)" % (prop, total.unknown))
 
@@ -272,6 +310,7 @@ def main(argv=None):
                 "validation_mismatches": len(mismatches), "shim_selftests": st,
                 "outside_bounds": getattr(mod, "OUTSIDE", []), "stubs": getattr(mod, "STUBS", DEFAULT_STUBS),
                 "solver": "z3 %s (python API), QF_BV+LIA" % __import__("z3").get_version_string(),
+                "second_opinion": second,
                 "repo": repo_state(),
             },
             "assumptions": getattr(mod, "ASSUMPTIONS", []) + DEFAULT_ASSUMPTIONS,
@@ -288,6 +327,8 @@ def main(argv=None):
     if new_viol:
         return 1
     if engine_errors or not_reproduced or unconfirmed or mismatches or missing:
+        return 2
+    if second and second["disagreements"]:
         return 2
     if total.paths == 0:
         return 2
